@@ -132,6 +132,7 @@ def c14_stop(c1: int, c2: int, c3: int, c4: int, ri: int) -> bool:
     c_i = outcome*2 + ignore for before_stop, after_stop, before_signal, after_signal.
 
     pre: 0 <= c1 <= 5 and 0 <= c2 <= 5 and 0 <= c3 <= 5 and 0 <= c4 <= 5
+    pre: (c1 > 0) + (c2 > 0) + (c3 > 0) + (c4 > 0) <= rt.S.get('maxhooks', 4)
     pre: ri == rt.S['ri']
     post: _
     """
@@ -269,7 +270,7 @@ def _canary_no_stop_on_veto():
 
 
 CANARIES = {
-    'sigkill_exemption_by_enum_name': {'apply': _canary_sigkill_by_name, 'conds': ['c14_stop'], 'shards': [{'ri': 3}],
+    'sigkill_exemption_by_enum_name': {'apply': _canary_sigkill_by_name, 'conds': ['c14_stop'], 'shards': [{'ri': 3, 'maxhooks': 1}],
                                        'what': 'SIGKILL given as a plain int is vetoed by before_signal'},
     'late_veto_leaves_watcher_active': {'apply': _canary_no_stop_on_veto, 'conds': ['c14_start'], 'shards': [{'maxhooks': 1, 'n0': 2}],
                                         'what': 'a spawn veto on the second worker leaves the watcher active with one worker'},
@@ -282,11 +283,12 @@ def plan(tier):
     q = tier == 'quick'
     start_sh = [{'maxhooks': 2 if q else 4, 'n0': 2, 'beh': 0}, {'maxhooks': 1 if q else 2, 'n0': 2, 'beh': 2},
                 {'maxhooks': 1, 'n0': 3, 'beh': 0}]
-    stop_sh = [{'ri': i, 'beh': 0} for i in range(len(REQS))] + [{'ri': i, 'beh': 2} for i in (0, 1, 5)]
+    mh = 2 if q else 4
+    stop_sh = [{'ri': i, 'beh': 0, 'maxhooks': mh} for i in range(len(REQS))] + [{'ri': i, 'beh': 2, 'maxhooks': mh} for i in (0, 1, 5)]
     return [
         Cond('c14_start', shards=start_sh, budget=240 if q else 2400, twins=2,
              bounds={'c1..c4': 'S: {true,false,raise} x {ignore flag} per start-phase hook (quick: at most 2 non-default hooks at a time; '
                      'thorough: all 1296 assignments)', 'fc': 'S{from the first call, from the second call}', 'workers': 'S{obedient, stubborn}'}),
         Cond('c14_stop', shards=stop_sh, budget=240 if q else 1200, twins=2,
-             bounds={'c1..c4': 'S: all 1296 assignments to before_stop, after_stop, before_signal, after_signal', 'request': 'S%r' % (REQS,)}),
+             bounds={'c1..c4': 'S: assignments to before_stop, after_stop, before_signal, after_signal (quick: at most two non-default at a time; thorough: all 1296)', 'request': 'S%r' % (REQS,)}),
     ]
